@@ -20,6 +20,8 @@ mpz_class input(const std::string& name, long lo, long hi);
 // A symbolic selector in [0,n): concretised by forking (replay: recorded).
 int choose(const std::string& name, int n);
 inline bool flag(const std::string& name) { return choose(name, 2) != 0; }
+// An input in [lo,hi] that is concretised immediately (one fork per value): keeps the terms built from it linear.
+inline mpz_class cinput(const std::string& name, long lo, long hi) { return mpz_class(lo + choose(name, (int)(hi - lo + 1))); }
 // Integer harness parameter (shape), set on the command line with --set k=v.
 long param(const std::string& name, long dflt);
 
@@ -37,6 +39,9 @@ inline z3::expr bval(bool b) { return ctx().bool_val(b); }
 // ---- path condition --------------------------------------------------------
 // Restrict the inputs (listed in evidence).  Must precede the code it constrains.
 void assume(const z3::expr& f);
+// Definitional constraint over fresh oracle variables only (a conservative extension of the path
+// condition, e.g. k = floor(t)): added to every later query, never negated, keeps the current model.
+void define(const z3::expr& f);
 // Decide a symbolic Boolean: forks when both sides are feasible.
 bool decide(const z3::expr& f);
 // Is f satisfiable together with the path condition?  (no side effect)
@@ -55,6 +60,8 @@ struct Batch { std::vector<std::pair<z3::expr, std::string> > obs; void add(cons
 // for every input on the path -- only usable when f has no input-dependence
 // beyond the path condition; used for reachability witnesses.
 void reach(const std::string& label);
+// Decide obligations in a fresh non-incremental solver (z3's incremental core can diverge on to_int/is_int terms).
+void fresh_obligations(bool on);
 // A concrete (non-solver) requirement evaluated by the harness itself.
 void require(bool ok, const std::string& label);
 // Free-form coverage note (e.g. a status word); histogrammed in the evidence.
